@@ -80,6 +80,7 @@ class SimConn(asyncio.Transport):
         self.extra = {}
         self._sock = FakeSocket(self)
         self._sslobj = FakeSSLObject()
+        self.delivery_offsets = []      # cumulative s2c offsets at the end of each delivery to the client
         self.writes = []                # list of byte strings as written by the client
         self.meta = {}
 
@@ -292,31 +293,34 @@ class SimConn(asyncio.Transport):
             self._pump_handle = self.loop.call_at(max(self._q[0][0], self.loop.time()), self._pump)
 
     def _pump(self):
+        """Deliver ONE event to the client per event-loop callback, as a selector transport does
+        (one recv() result per readiness callback); data pieces due at the same instant are
+        coalesced into one recv() result. Anything else that is due runs in a later callback, so the
+        reader task gets to run in between exactly as with a real transport."""
         self._pump_handle = None
         if self._lost:
             self._q.clear()
             return
         now = self.loop.time() + 1e-12
-        while self._q and self._q[0][0] <= now and not self._paused:
+        if self._q and self._q[0][0] <= now and not self._paused:
             _, kind, payload = self._q.popleft()
-            if self._lost:
-                break
             if kind == 'data':
-                if self._closing:
-                    continue
-                self.s2c_delivered += len(payload)
-                self.net.stats['deliveries'] += 1
-                self.net.event('rx', self.id, len(payload))
-                self.protocol.data_received(payload)
-                if self.net.on_delivery:
-                    self.net.on_delivery(self, payload)
+                while self._q and self._q[0][0] <= now and self._q[0][1] == 'data':
+                    payload += self._q.popleft()[2]
+                if not self._closing:
+                    self.s2c_delivered += len(payload)
+                    self.delivery_offsets.append(self.s2c_delivered)
+                    self.net.stats['deliveries'] += 1
+                    self.net.event('rx', self.id, len(payload))
+                    self.protocol.data_received(payload)
+                    if self.net.on_delivery:
+                        self.net.on_delivery(self, payload)
             elif kind == 'eof':
                 self.net.event('eof', self.id, 0)
-                if self._closing:
-                    continue
-                keep = self.protocol.eof_received()
-                if not keep:
-                    self.close()
+                if not self._closing:
+                    keep = self.protocol.eof_received()
+                    if not keep:
+                        self.close()
             elif kind == 'reset':
                 self.net.event('rst', self.id, 0)
                 self._closing = True
@@ -324,7 +328,11 @@ class SimConn(asyncio.Transport):
                 if self.handler is not None and not self.client_eof_seen:
                     self.client_eof_seen = True
                     self.handler.on_eof(self)
-        self._schedule_pump()
+        if self._q and not self._paused and not self._lost:
+            if self._q[0][0] <= now:
+                self._pump_handle = self.loop.call_soon(self._pump)
+            else:
+                self._schedule_pump()
 
     def _call_connection_lost(self, exc):
         if self._lost:
